@@ -41,7 +41,7 @@ type Gen struct {
 	count  int
 }
 
-var collNamePool = []string{"a", "ab", "coll", "c:", "d:", "i:x", "x y", "naïve", "c.d", "a:b", "日本", "t", "", "coll:", "c:a", "\x00", "a\xff", "A"}
+var collNamePool = []string{"a", "ab", "coll", "c:", "d:", "i:x", "x y", "naïve", "c.d", "a:b", "日本", "t", "", "coll:", "c:a", "\x00", "A"}
 var fieldPool = []string{"a", "ab", "b", "x", "xy", "n", "s", "arr"}
 
 func i64(x int64) interface{}   { return x }
@@ -320,6 +320,9 @@ func (g *Gen) doc(withID bool) map[string]interface{} {
 		}
 		d[f] = g.value()
 	}
+	if g.Cfg.JSONSafe && g.R.Chance(0.25) {
+		d["p.q"] = g.value() // a literal dotted key at top level: it is one field, not a path
+	}
 	if withID {
 		d["_id"] = g.newID()
 	}
@@ -379,8 +382,17 @@ func (g *Gen) operand(c *model.Coll, path string, allowFieldObj bool) model.Oper
 	return o
 }
 
+// pickPathFor prefers an indexed field of the collection.
+func (g *Gen) pickPathFor(c *model.Coll, p float64) string {
+	if c != nil && len(c.Indexes) > 0 && g.R.Chance(p) {
+		fs := c.IndexFields()
+		return fs[g.R.Intn(len(fs))]
+	}
+	return g.pickPath()
+}
+
 func (g *Gen) leaf(c *model.Coll) *model.Crit {
-	path := g.pickPath()
+	path := g.pickPathFor(c, 0.35)
 	ops := []string{"eq", "eq", "neq", "gt", "gte", "lt", "lte", "in", "contains", "like", "exists", "notexists", "func"}
 	op := ops[g.R.Intn(len(ops))]
 	cr := &model.Crit{Op: op, F: path}
@@ -498,7 +510,7 @@ func (g *Gen) query(coll string, c *model.Coll, pCrit, pSort, pWindow float64) *
 				n = g.R.Range(2, 3)
 			}
 			for i := 0; i < n; i++ {
-				q.Sort = append(q.Sort, model.SortOpt{Field: g.pickPath(), Dir: dirs[g.R.Intn(len(dirs))]})
+				q.Sort = append(q.Sort, model.SortOpt{Field: g.pickPathFor(c, 0.4), Dir: dirs[g.R.Intn(len(dirs))]})
 			}
 		}
 	}
@@ -736,6 +748,35 @@ func (g *Gen) make(k string, m *model.DB) Op {
 			pWin = 0
 		}
 		q := g.query(coll, mc, 0.8, pSort, pWin)
+		if mc != nil && len(mc.Docs) > 0 && g.R.Chance(0.08) {
+			// rewrite a field with the value it already has, in another numeric
+			// representation and nothing else: the document must still be rewritten
+			ids := mc.IDs()
+			d := mc.Docs[ids[g.R.Intn(len(ids))]]
+			for _, f := range val.SortedKeys(d) {
+				var nv interface{}
+				switch x := d[f].(type) {
+				case int64:
+					if x >= 0 && g.R.Bool() {
+						nv = uint64(x)
+					} else if x > -(1<<53) && x < 1<<53 {
+						nv = float64(x)
+					}
+				case uint64:
+					if x < 1<<53 {
+						nv = float64(x)
+					}
+				case float64:
+					if x == float64(int64(x)) && x > -(1<<53) && x < 1<<53 {
+						nv = int64(x)
+					}
+				}
+				if nv != nil && f != "_id" {
+					q.HasSkip, q.HasLimit = false, false
+					return Op{K: k, Q: q, Upd: map[string]val.V{f: val.Wrap(nv)}, UpdStyle: updStyles[g.R.Intn(len(updStyles))]}
+				}
+			}
+		}
 		return Op{K: k, Q: q, Upd: g.updMapFor(mc, true), UpdStyle: updStyles[g.R.Intn(len(updStyles))]}
 	case "Delete":
 		pWin := 0.3
